@@ -505,6 +505,12 @@ def catalogue():
     # a complex constant right hand side with a traced real matrix
     add('solve:traced_A_complex_const_rhs', (lambda B: lambda X: (lambda Y: A.real(Y) * A.imag(Y))(A.solve(_wc(X), B)))(np.array([[1. + 2.j, 0.5], [0. - 1.j, -1.], [3., 0.5 + 0.5j]])),
         [(M, 'R')], ['linalg', 'const', 'complex-intermediate'])
+    # a constant numerator that contains exact zeros (an identity matrix, a mask, the number 0) over a traced value
+    add('div:identity_over_traced', lambda X: np.eye(3) / X, [(M, 'nz')], ['binary', 'const'])
+    add('div:mask_over_traced', (lambda c: lambda x: c / x + x)(np.array([1.0, 0.0, 2.0])), [(V, 'nz')], ['binary', 'const'])
+    add('div:zero_over_traced', lambda x: 0.0 / x + 0 / (x * x) + x, [(V, 'nz')], ['binary', 'const'])
+    # a traced exponent whose value is an integer, on base values of either sign (NumPy: (-2.0) ** 3.0 = -8.0)
+    add('pow:traced_integer_valued_exponent', lambda a, b: a ** (b * 0.0 + 3.0) + a ** (b - b + 2.0), [(V, 'nz'), (V, 'R')], ['pow', 'binary', 'nopb', 'ndarray-only-values'])
     # the builtin abs() on traced values, real and complex
     add('abs:builtin', lambda x: abs(x) * x + abs(x - 0.1), [(V, 'nz')], ['unary', 'piecewise'])
     add('fft:builtin_abs_of_spectrum', lambda x: abs(A.fft.fft(x) + 5.0), [((4,), 'unit')], ['fft', 'complex-intermediate'])
